@@ -42,6 +42,9 @@ pub struct Client {
 #[derive(Clone, Debug, Serialize, Deserialize)]
 pub struct Case {
     pub clients: Vec<Client>,
+    /// run the whole server side in a forked child of this (long-lived) worker process
+    #[serde(default)]
+    pub server_in_forked_child: bool,
 }
 
 fn msg_len(class: u8) -> usize {
@@ -110,6 +113,13 @@ pub fn client_run(name: &str, server: u32, msgs: &[(u8, bool)], from: usize, to:
 
 pub fn helper_main(args: &[String]) -> i32 {
     // c08client <name> <server> <sndbuf> <msgs as "c:a,c:a,...">
+    // a freshly exec'ed client must not have inherited anything from the server process
+    for (fd, target) in crate::fdsnap::fd_map() {
+        if fd > 2 {
+            eprintln!("c08client: inherited descriptor {} -> {}", fd, target);
+            return 7;
+        }
+    }
     let name = &args[0];
     let server: u32 = args[1].parse().unwrap();
     let sb: usize = args[2].parse().unwrap();
@@ -163,10 +173,27 @@ impl Prop for C08 {
                 Client { kind, msgs, order, unused, connects }
             },
         );
-        prop_oneof![4 => proptest::collection::vec(client.clone(), 1..=6), 1 => proptest::collection::vec(client, 1..=max_servers)].prop_map(|clients| Case { clients }).boxed()
+        (prop_oneof![4 => proptest::collection::vec(client.clone(), 1..=6), 1 => proptest::collection::vec(client, 1..=max_servers)], proptest::bool::weighted(0.2))
+            .prop_map(|(clients, server_in_forked_child)| Case { clients, server_in_forked_child })
+            .boxed()
     }
 
     fn exec(ctx: &Ctx, case: &Case) -> Result<Outcome, Failure> {
+        if case.server_in_forked_child && !cfg!(feature = "inproc") {
+            // make sure this process has used the library before it forks (lazily initialised
+            // process-wide state is then inherited by the child)
+            let _ = IpcSharedMemory::from_bytes(b"warm");
+            let (c2, ctx2) = (case.clone(), ctx.clone());
+            let (end, res) = sandbox::exec_in_child(Duration::from_secs(sandbox::watchdog_secs() * 6), || {}, move || run(&ctx2, &c2));
+            return match (end, res) {
+                (ChildEnd::Exited(0), Some(r)) => r.map(|mut o| {
+                    o.class.push_str("+server-in-forked-child");
+                    o
+                }),
+                (ChildEnd::TimedOut, _) => Err(Failure::inconclusive("forked server side timed out")),
+                (e, _) => Err(Failure::new("oneshot:forked-server-died", format!("the forked process running the server side ended {:?}: {:?}", e, crate::take_panics()))),
+            };
+        }
         run(ctx, case)
     }
 }
@@ -218,6 +245,7 @@ fn finish_client(r: Running, what: &str) -> Result<(), Failure> {
             loop {
                 match c.try_wait() {
                     Ok(Some(st)) if st.success() => return Ok(()),
+                    Ok(Some(st)) if st.code() == Some(7) => return Err(Failure::new("oneshot:rendezvous-descriptor-inherited", format!("{}: the spawned client process inherited a descriptor of the server process (the rendezvous socket is not close-on-exec)", what))),
                     Ok(Some(st)) => return Err(Failure::new("oneshot:client-failed", format!("{}: spawned client ended {:?}", what, st))),
                     Ok(None) => {
                         if t0.elapsed() > Duration::from_secs(sandbox::watchdog_secs()) {
